@@ -328,6 +328,38 @@ def explore_manifest(manifest, depth, workdir):
     return len(seen), transitions, viol
 
 
+def drain_scenarios(workdir):
+    """Start from non-initial states too: long queues.  k requests for listed scripts while one runs, then the
+    jobs complete one by one: every request that was answered "Started" is executed, in request order."""
+    viol = []
+    n = 0
+    for k in (3, 17, 40):
+        for man in ([ENTRIES[0], ENTRIES[1]], [ENTRIES[0], ENTRIES[8]], [ENTRIES[3]]):
+            s = Sys(man, workdir)
+            paths = [entry_path(e) for e in s.manifest]
+            asked = []
+            for i in range(k):
+                p = paths[i % len(paths)]
+                before = len([x for x in s.log if x[0] == 'from_file'])
+                s.request('/' + p)
+                if len([x for x in s.log if x[0] == 'from_file']) > before:
+                    asked.append(s.log[-1][1])
+                n += 1
+            for _ in range(3 * k + 5):
+                alive = [t for t in s.threads if t.alive]
+                if not alive:
+                    break
+                alive[0].complete()
+                n += 1
+            executed = [x[1] for x in s.log if x[0] == 'executed']
+            if sorted(executed) != sorted(asked):
+                viol.append(('accepted-request-never-executed', '%d of %d started scripts ran (manifest %r, %d requests)' % (
+                    len(executed), len(asked), [e['file_name'] for e in man], k), (('drain', k),)))
+            elif s.app._jobs.has_jobs():
+                viol.append(('controller-not-drained', 'has_jobs() after everything completed', (('drain', k),)))
+    return n, viol
+
+
 def manifests(maxlen):
     for n in range(1, maxlen + 1):
         for combo in itertools.product(range(len(ENTRIES)), repeat=n):
@@ -341,6 +373,11 @@ def _worker(rank, n, maxlen, depth):
     cwd = os.getcwd()
     st = dict(manifests=0, states=0, transitions=0, viol={})
     try:
+        if rank == 0:
+            nd, dviol = drain_scenarios(workdir)
+            st['transitions'] += nd
+            for kind, detail, hist in dviol:
+                st['viol'][kind] = [1, detail, [ENTRIES[0]], hist, (9, 9)]
         for i, man in enumerate(manifests(maxlen)):
             if i % n != rank:
                 continue
